@@ -1,5 +1,5 @@
 import NasdaqModel.Driver.Soup
-import NasdaqModel.Model.Seq
+import NasdaqModel.Model.SeqSeg
 /-
 Line protocol for Model/Seq.lean (property C10).
 
@@ -68,8 +68,35 @@ def fixOpStr : FixOp → String
   | .send m => s!"(send {m.bodyValid} {m.encodable})"
   | .heartbeat m => s!"(hb {m.bodyValid} {m.encodable})"
 
+def segMsgOf (v h b t : Sexp) : Option SegMsg := do
+  some { bodyValid := (← boolOf v), hdrEnc := (← boolOf h), bodyEnc := (← boolOf b), trlEnc := (← boolOf t) }
+
+def segOpOf : Sexp → Option SegOp
+  | .list [.atom "login", q, v, h, b, t] => do some (.login (← asInt q) (← segMsgOf v h b t))
+  | .list [.atom "send", v, h, b, t] => do some (.send (← segMsgOf v h b t))
+  | .list [.atom "hb", v, h, b, t] => do some (.heartbeat (← segMsgOf v h b t))
+  | _ => none
+
+def segOpStr (op : SegOp) : String :=
+  let m := op.msg
+  let tl := s!"{m.bodyValid} {m.hdrEnc} {m.bodyEnc} {m.trlEnc})"
+  match op with
+  | .login q _ => s!"(login {q} {tl}"
+  | .send _ => s!"(send {tl}"
+  | .heartbeat _ => s!"(hb {tl}"
+
 def handle (op : String) (args : List Sexp) : Option String :=
   match op, args with
+  | "seq.fixseg", [.list ops] => do
+      -- the code as it is (repaired send_msg), the message given segment by segment: (… <valid> <hdr> <body> <trl> encodable)
+      let ops ← ops.mapM segOpOf
+      let t := segTraceR fixInit ops
+      let fin := segRunR fixInit ops
+      let ts := "(" ++ " ".intercalate (t.map fun (o, n) => s!"({fixOutStr o} {optIntStr n})") ++ ")"
+      let fs := "(" ++ " ".intercalate (fin.frames.map toString) ++ ")"
+      some s!"ok {ts} {fs}"
+  | "witness", [.atom "C10Seg"] =>
+      some ("(" ++ " ".intercalate (witnessHeaderGap.map segOpStr) ++ ") (" ++ " ".intercalate (witnessTrailerGap.map segOpStr) ++ ")")
   | "seq.soup", [r, c, i, .list ops] => do
       let s : SoupSt := { role := (← roleOf r), connected := (← boolOf c), seq := (← asInt i), written := [] }
       let ops ← ops.mapM soupOpOf
